@@ -21,9 +21,29 @@ type DB struct {
 	CrashAt int // when > 0: the CrashAt-th write and all later ones are dropped
 	Log    []string
 	KeepLog bool
+	// Hang: when the crash point is reached the writing goroutine never returns (the process
+	// "died" inside that write); CrashedCh is closed at that moment.
+	LastKind  string // kind of the most recent write operation (applied or dropped)
+	Hang      bool
+	CrashedCh chan struct{}
+	crashed   bool
 }
 
-func New() *DB { return &DB{m: map[string][]byte{}} }
+func New() *DB { return &DB{m: map[string][]byte{}, CrashedCh: make(chan struct{})} }
+
+// die marks the crash and, in Hang mode, blocks the caller forever. Called without the lock.
+func (d *DB) die() {
+	d.mu.Lock()
+	first := !d.crashed
+	d.crashed = true
+	d.mu.Unlock()
+	if first {
+		close(d.CrashedCh)
+	}
+	if d.Hang {
+		select {}
+	}
+}
 
 // Clone returns an independent copy of the stored data (counters reset).
 func (d *DB) Clone() *DB {
@@ -53,6 +73,7 @@ func (d *DB) admit(kind string) bool {
 	if d.KeepLog {
 		d.Log = append(d.Log, kind)
 	}
+	d.LastKind = kind
 	return d.CrashAt == 0 || d.Writes < d.CrashAt
 }
 
@@ -74,18 +95,24 @@ func (d *DB) Get(k []byte) []byte {
 
 func (d *DB) Set(k, v []byte) {
 	d.mu.Lock()
-	defer d.mu.Unlock()
-	if d.admit("set") {
+	if d.admit("set:" + keyClass(k)) {
 		d.m[string(k)] = append([]byte{}, v...)
+		d.mu.Unlock()
+		return
 	}
+	d.mu.Unlock()
+	d.die()
 }
 func (d *DB) SetSync(k, v []byte) { d.Set(k, v) }
 func (d *DB) Delete(k []byte) {
 	d.mu.Lock()
-	defer d.mu.Unlock()
-	if d.admit("delete") {
+	if d.admit("delete:" + keyClass(k)) {
 		delete(d.m, string(k))
+		d.mu.Unlock()
+		return
 	}
+	d.mu.Unlock()
+	d.die()
 }
 func (d *DB) DeleteSync(k []byte)      { d.Delete(k) }
 func (d *DB) Close()                   {}
@@ -109,8 +136,9 @@ func (b *batch) Set(k, v []byte) {
 func (b *batch) Delete(k []byte) { b.ops = append(b.ops, op{k: string(k), del: true}) }
 func (b *batch) Write() {
 	b.d.mu.Lock()
-	defer b.d.mu.Unlock()
-	if !b.d.admit("batch") {
+	if !b.d.admit("batch:" + b.classes()) {
+		b.d.mu.Unlock()
+		b.d.die()
 		return
 	}
 	for _, o := range b.ops {
@@ -120,6 +148,7 @@ func (b *batch) Write() {
 			b.d.m[o.k] = o.v
 		}
 	}
+	b.d.mu.Unlock()
 }
 
 type iter struct {
@@ -190,3 +219,42 @@ func (it *iter) Seek(p []byte) bool {
 }
 func (it *iter) Release()     {}
 func (it *iter) Error() error { return nil }
+
+// keyClass names the record family of a key (prefix up to the first ':' or the first 3 bytes).
+func keyClass(k []byte) string {
+	if len(k) >= 2 && k[1] == ':' && k[0] < 16 {
+		names := map[byte]string{2: "hashes", 3: "header", 4: "txs", 5: "mainidx", 6: "checkpoint", 7: "utxo", 8: "contract"}
+		if n, ok := names[k[0]]; ok {
+			return n
+		}
+		return "rec" + string('0'+k[0])
+	}
+	for i, c := range k {
+		if c == ':' {
+			return string(k[:i])
+		}
+		if i >= 12 {
+			break
+		}
+	}
+	if len(k) > 10 {
+		return string(k[:10])
+	}
+	return string(k)
+}
+
+func (b *batch) classes() string {
+	seen := map[string]bool{}
+	out := ""
+	for _, o := range b.ops {
+		c := keyClass([]byte(o.k))
+		if !seen[c] {
+			seen[c] = true
+			if out != "" {
+				out += "+"
+			}
+			out += c
+		}
+	}
+	return out
+}
